@@ -288,6 +288,12 @@ func Consensus(trees <-chan Trees, cutoff float64) (*Tree, error) {
 			return nil, curtree.Err
 		}
 
+		// The two branches connected to the root of a rooted tree define
+		// the same bipartition: we unroot the tree to count it only once
+		if curtree.Tree.Rooted() && len(curtree.Tree.Tips()) > 2 {
+			curtree.Tree.UnRoot()
+		}
+
 		if err = curtree.Tree.ReinitIndexes(); err != nil {
 			return nil, err
 		}
